@@ -207,6 +207,14 @@ class Hub:
                     cur_bytes.setdefault(name, bytearray()).extend(data)
                 else:
                     cur.setdefault("werr", []).append([name, err])
+                    # the write of an EMPTY payload failed: the header that went out just before it
+                    # belongs to a frame the manager considers undelivered (the peer is gone)
+                    bs = cur_bytes.get(name)
+                    if len(data) == 0 and bs is not None and len(bs) >= self.hs:
+                        frs, rest = F.split_frames(bytes(bs), self.timecode)
+                        if not rest and frs and len(frs[-1][1]) == 0:
+                            del bs[len(bs) - self.hs:]
+                            cur.setdefault("partial", []).append(name)
             elif kind == "close" and side == "srv":
                 if cur is None:
                     cur = {"a": "End", "lw": [], "closed": []}
